@@ -215,6 +215,14 @@ def locked_phase(pid, kinds=("ltmoveassign", "probe", "lock", "unlock")):
                 continue
             g = k2.Gen(random.Random(rng.getrandbits(48)), cfg, "locked")
             lines = g.run(500 if tier == "quick" else 4000, allow_mlf0=(cfg.hashmode in (0, 4)), universe=rng.choice([12, 48, 200]))
+            if cfg.kind != 2 and cfg.hashmode in (0, 4):
+                # lock_table() right after every insertion of a growing table, with helper threads configured: whatever part of a
+                # deferred migration is pending, the locked table must expose every stored element (forward and backward)
+                w = rng.choice([2, 4, 5])
+                lines += ["m new 0 2", "m setmlf 0 0", "m setworkers 0 %d" % w]
+                for k in rng.sample(range(1, 5000), 40 if tier == "quick" else 120):
+                    lines += ["m insert 0 %d %d" % (k, k % 89), "m lock 0", "m iter 0", "m riter 0", "m unlock 0"]
+                lines += ["m setworkers 0 0", "m digest 0"]
             cpp, lean, info = k2.run_pair(exe, lines)
             n += 1
             nops += len(lines)
